@@ -244,19 +244,25 @@ func (s *XModel) GetFromLedger(txin *protos.TxInputExt) (*kledger.VersionedData,
 // Get get value for specific key, return value with version
 func (s *XModel) Get(bucket string, key []byte) (*kledger.VersionedData, error) {
 	rawKey := makeRawKey(bucket, key)
+	// The live table and the recycle table are read one after the other, without a storage
+	// snapshot, while batches move a key between them: undoing a delete (every walk rolls the
+	// pending transactions back) restores the live entry and removes the recycle mark in one
+	// batch. A reader whose first look-up ran before that batch and whose second ran after it
+	// found the key in neither table and answered "never written" - also through snapshots of
+	// old blocks. A key found in neither table is therefore looked up in the live table once
+	// more before it counts as never written.
 	version, err := s.extUtxoTable.Get(rawKey)
-	if err != nil {
-		if kvdb.ErrNotFound(err) {
-			//从回收站Get, 因为这个utxo可能是被删除了，RefTxid需要引用
-			version, err = s.extUtxoDelTable.Get(rawKey)
-			if err != nil {
-				if kvdb.ErrNotFound(err) {
-					return makeEmptyVersionedData(bucket, key), nil
-				}
-				return nil, err
+	if err != nil && kvdb.ErrNotFound(err) {
+		//从回收站Get, 因为这个utxo可能是被删除了，RefTxid需要引用
+		version, err = s.extUtxoDelTable.Get(rawKey)
+		if err != nil && kvdb.ErrNotFound(err) {
+			version, err = s.extUtxoTable.Get(rawKey)
+			if err != nil && kvdb.ErrNotFound(err) {
+				return makeEmptyVersionedData(bucket, key), nil
 			}
-			return s.fetchVersionedData(bucket, string(version))
 		}
+	}
+	if err != nil {
 		return nil, err
 	}
 	return s.fetchVersionedData(bucket, string(version))
